@@ -1,15 +1,19 @@
 (* Theorems about the VM model (Vm.v). All statements are generic in the floating-point instance [fops] and in
    the build profile, so none of them depends on Flocq (or on any axiom).
 
-   - run_total, run_deterministic            : `run` is a total function
-   - step_count_rel                          : one instruction changes the ghost counter only through re-entry
-   - budget_bound                            : a run without re-entry dispatches at most budget-1 (< budget) instructions
-   - budget_monotone                         : a run without re-entry that does not time out is unchanged by a larger budget
-   - timeout_reported                        : with one unit of budget left the loop reports Timeout and runs nothing;
-     timeout_reported_run                      a program that needs >= N instructions reports Timeout under budget N
-   - count_monotone                          : the counter never decreases, at any nesting depth
-   - budget_bound_nested_refuted             : with re-entry (fresh budget per nested `_run`, A-11) the bound is false;
-                                               the witness is in VmWitness.v *)
+   - run_total, run_deterministic      : `run` is a total function
+   - step_count_rel                    : one instruction changes (dispatch counter, remaining budget) only through
+                                         re-entry
+   - budget_bound                      : C03 for the code as it is now (shared budget): for ALL programs, states,
+                                         natives of the menu incl. re-entry at any depth, a run with budget N
+                                         dispatches at most N instructions
+   - timeout_reported                  : with at most one unit left the loop runs nothing and reports Timeout
+   - budget_bound_flat, budget_monotone, timeout_reported_run
+                                       : runs without re-entry (run_flat): at most N-1 dispatches, a run that does
+                                         not time out is unchanged by a larger budget, a program needing >= N
+                                         instructions reports Timeout under budget N
+   - budget_bound_legacy_refuted       : under the budget rule of the pinned tree (fresh budget per nested `_run`,
+                                         A-11, repaired by 9ecef93) the bound is false; witness in VmWitness.v *)
 From Coq Require Import NArith ZArith List Lia Bool.
 From Cao Require Import ListUtil Bits Stacks Vm VmWitness.
 Import ListNotations.
@@ -31,9 +35,11 @@ Proof. intros; congruence. Qed.
 (* The ghost counter and one instruction                               *)
 (* ------------------------------------------------------------------ *)
 
+Definition cr (s : state) : N * N := (st_count s, st_rem s).
+
 Section CountRel.
-  (* R = eq for runs whose natives do not re-enter, R = N.le in general *)
-  Variable R : N -> N -> Prop.
+  (* a reflexive, transitive relation on (dispatch counter, remaining budget) *)
+  Variable R : N * N -> N * N -> Prop.
   Hypothesis R_refl : forall x, R x x.
   Hypothesis R_trans : forall x y z, R x y -> R y z -> R x z.
 
@@ -42,31 +48,31 @@ Section CountRel.
   Variable P : program.
   Variable reenter : N -> state -> rres.
 
-  Definition rres_R (c : N) (r : rres) : Prop :=
-    match r with ROk s' | RErr _ _ s' | RStop _ s' => R c (st_count s') end.
-  Definition sres_R (c : N) (r : sres) : Prop :=
-    match r with SNext _ s' | SExit s' | SErr _ _ s' | SStop _ s' => R c (st_count s') end.
-  Definition nres_R (c : N) (r : nres) : Prop :=
-    match r with NOk _ s' | NErr _ s' | NStop _ s' => R c (st_count s') end.
+  Definition rres_R (c : N * N) (r : rres) : Prop :=
+    match r with ROk s' | RErr _ _ s' | RStop _ s' => R c (cr s') end.
+  Definition sres_R (c : N * N) (r : sres) : Prop :=
+    match r with SNext _ s' | SExit s' | SErr _ _ s' | SStop _ s' => R c (cr s') end.
+  Definition nres_R (c : N * N) (r : nres) : Prop :=
+    match r with NOk _ s' | NErr _ s' | NStop _ s' => R c (cr s') end.
 
-  Hypothesis reenter_R : forall ip s, rres_R (st_count s) (reenter ip s).
+  Hypothesis reenter_R : forall ip s, rres_R (cr s) (reenter ip s).
 
   (* helpers preserve the counter exactly *)
-  Lemma spush_cnt s v s1 : spush s v = Some s1 -> st_count s1 = st_count s.
+  Lemma spush_cnt s v s1 : spush s v = Some s1 -> cr s1 = cr s.
   Proof. unfold spush. destruct (vs_push _ _) as [k []]; intros H; inversion H; reflexivity. Qed.
-  Lemma spop_cnt s s1 v : spop s = (s1, v) -> st_count s1 = st_count s.
+  Lemma spop_cnt s s1 v : spop s = (s1, v) -> cr s1 = cr s.
   Proof. unfold spop. destruct (vs_pop _ _); intros H; inversion H; reflexivity. Qed.
-  Lemma sset_cnt s i v s1 : sset s i v = Some s1 -> st_count s1 = st_count s.
+  Lemma sset_cnt s i v s1 : sset s i v = Some s1 -> cr s1 = cr s.
   Proof. unfold sset. destruct (vs_step _ _ _) as [k []]; intros H; inversion H; reflexivity. Qed.
-  Lemma sclear_until_cnt s h s1 v : sclear_until s h = (s1, v) -> st_count s1 = st_count s.
+  Lemma sclear_until_cnt s h s1 v : sclear_until s h = (s1, v) -> cr s1 = cr s.
   Proof. unfold sclear_until. destruct (vs_step _ _ _) as [k []]; intros H; inversion H; reflexivity. Qed.
-  Lemma spop_w_offset_cnt s h s1 v : spop_w_offset s h = (s1, v) -> st_count s1 = st_count s.
+  Lemma spop_w_offset_cnt s h s1 v : spop_w_offset s h = (s1, v) -> cr s1 = cr s.
   Proof. unfold spop_w_offset. destruct (vs_step _ _ _) as [k []]; intros H; inversion H; reflexivity. Qed.
-  Lemma salloc_cnt s o s1 a : salloc s o = (s1, a) -> st_count s1 = st_count s.
+  Lemma salloc_cnt s o s1 a : salloc s o = (s1, a) -> cr s1 = cr s.
   Proof. unfold salloc, halloc. intros H; inversion H; reflexivity. Qed.
-  Lemma push_frame_cnt s f s1 : push_frame s f = Some s1 -> st_count s1 = st_count s.
+  Lemma push_frame_cnt s f s1 : push_frame s f = Some s1 -> cr s1 = cr s.
   Proof. unfold push_frame. destruct (_ <=? _); intros H; inversion H; reflexivity. Qed.
-  Lemma write_local_cnt s off h v s1 : write_local s off h v = Some s1 -> st_count s1 = st_count s.
+  Lemma write_local_cnt s off h v s1 : write_local s off h v = Some s1 -> cr s1 = cr s.
   Proof. apply sset_cnt. Qed.
 
   Ltac note_cnt :=
@@ -81,15 +87,16 @@ Section CountRel.
            | H : write_local _ _ _ _ = Some _ |- _ => apply write_local_cnt in H
            end.
 
-  Ltac cnt_simpl :=
-    cbn [st_count set_stack set_calls set_globals set_heap set_open set_log set_table log_push sraw_set
-         sres_R nres_R rres_R fst snd] in *.
+  Ltac cnt_cbn :=
+    cbn [st_count st_rem set_stack set_calls set_globals set_heap set_open set_log set_table log_push sraw_set
+         spop_n sres_R nres_R rres_R fst snd] in *.
+  Ltac cnt_simpl := cnt_cbn; unfold cr in *; cnt_cbn.
 
-  (* close the goal  R (st_count s) (st_count s')  from the collected equalities (and at most one R fact) *)
+  (* close the goal  R (cr s) (st_count s')  from the collected equalities (and at most one R fact) *)
   Ltac cnt_close :=
     note_cnt; cnt_simpl;
     repeat match goal with
-           | H : st_count ?a = st_count ?b |- _ => rewrite H in *; clear H
+           | H : (st_count ?a, st_rem ?a) = (st_count ?b, st_rem ?b) |- _ => rewrite H in *; clear H
            end;
     cnt_simpl;
     first [ apply R_refl | assumption | (eapply R_trans; [eassumption|]; apply R_refl) | exact I ].
@@ -101,7 +108,7 @@ Section CountRel.
 
   Lemma close_upvalues_go_cnt fuel top s :
     match close_upvalues_go fuel top s with
-    | ClOk s' | ClErr _ s' | ClStop _ s' => st_count s' = st_count s
+    | ClOk s' | ClErr _ s' | ClStop _ s' => cr s' = cr s
     end.
   Proof.
     revert s. induction fuel as [|f IH]; intros s; cbn [close_upvalues_go]; [reflexivity|].
@@ -115,17 +122,17 @@ Section CountRel.
 
   Lemma close_upvalues_from_cnt top s :
     match close_upvalues_from top s with
-    | ClOk s' | ClErr _ s' | ClStop _ s' => st_count s' = st_count s
+    | ClOk s' | ClErr _ s' | ClStop _ s' => cr s' = cr s
     end.
   Proof. apply close_upvalues_go_cnt. Qed.
 
-  Lemma push_next_R ip s v c : R c (st_count s) -> sres_R c (push_next ip s v).
+  Lemma push_next_R ip s v c : R c (cr s) -> sres_R c (push_next ip s v).
   Proof. unfold push_next. intros H. destruct (spush s v) eqn:E; cnt_close. Qed.
 
-  Lemma of_vres_R ip s r c : R c (st_count s) -> sres_R c (of_vres ip s r).
+  Lemma of_vres_R ip s r c : R c (cr s) -> sres_R c (of_vres ip s r).
   Proof. intros H. destruct r; cbn [of_vres]; try apply push_next_R; cnt_close. Qed.
 
-  Lemma binary_op_R ip s op : sres_R (st_count s) (binary_op ip s op).
+  Lemma binary_op_R ip s op : sres_R (cr s) (binary_op ip s op).
   Proof.
     unfold binary_op. destruct (spop s) as [s1 b] eqn:E1. destruct (spop s1) as [s2 a] eqn:E2.
     apply of_vres_R. cnt_close.
@@ -133,14 +140,14 @@ Section CountRel.
 
   (* run_function and the natives *)
   Lemma run_function_R (cn : N -> state -> nres) :
-    (forall h s, nres_R (st_count s) (cn h s)) ->
-    forall fv s, nres_R (st_count s) (run_function P reenter cn fv s).
+    (forall h s, nres_R (cr s) (cn h s)) ->
+    forall fv s, nres_R (cr s) (run_function P reenter cn fv s).
   Proof.
     intros Hcn fv s. unfold run_function.
     destruct fv as [|z|r|a]; try cnt_close.
     destruct (hget (st_heap s) a) as [o|]; [|cnt_close].
     assert (Hgo : forall arity label clo,
-      nres_R (st_count s)
+      nres_R (cr s)
         (if (code_len P =? 0)%N then NStop APanic s
          else match assoc label (p_labels P) with
               | None => NErr (EProcedureNotFound label) s
@@ -155,11 +162,12 @@ Section CountRel.
                         match push_frame s1 f with
                         | None => NErr ECallStackOverflow s1
                         | Some s2 =>
+                            let depth := length (st_calls s) in
+                            let unwind (x : state) :=
+                              set_calls x (skipn (length (st_calls x) - depth) (st_calls x)) in
                             match reenter src s2 with
-                            | ROk s3 =>
-                                let s4 := set_calls s3 (tl (st_calls s3)) in
-                                let '(s5, v) := spop s4 in NOk v s5
-                            | RErr e _ s3 => NErr e s3
+                            | ROk s3 => let '(s5, v) := spop (unwind s3) in NOk v s5
+                            | RErr e _ s3 => NErr e (unwind s3)
                             | RStop ab s3 => NStop ab s3
                             end
                         end
@@ -184,64 +192,54 @@ Section CountRel.
   Qed.
 
   Lemma native_body_R (self : N -> state -> nres) :
-    (forall h s, nres_R (st_count s) (self h s)) ->
-    forall n s, nres_R (st_count s) (native_body F P reenter self n s).
+    (forall h s, nres_R (cr s) (self h s)) ->
+    forall n s, nres_R (cr s) (native_body F P reenter self n s).
   Proof.
     intros Hself n s.
     pose proof (@run_function_R self Hself) as Hrf.
-    destruct n; cbn [native_body].
-    - (* log1 *) destruct (spop s) as [s1 v] eqn:E1. cnt_close.
-    - (* sub2 *)
-      destruct (spop s) as [s1 v2] eqn:E1. destruct (to_i64 _ _ v2); [|cnt_close].
-      destruct (spop s1) as [s2 v1] eqn:E2. destruct (to_i64 _ _ v1); cnt_close.
+    destruct n; cbn [native_body]; cbv zeta.
+    - (* log1 *) cnt_close.
+    - (* sub2 *) destruct (to_i64 _ _ _); [|cnt_close]. destruct (to_i64 _ _ _); cnt_close.
     - cnt_close.
-    - (* str1 *)
-      destruct (spop s) as [s1 v] eqn:E1. destruct v; try cnt_close.
-      destruct (hget _ _) as [[]|]; cnt_close.
-    - (* mix3 *)
-      destruct (spop s) as [s1 v3] eqn:E1. destruct (spop s1) as [s2 v2] eqn:E2.
-      destruct (to_i64 _ _ v2); [|cnt_close].
-      destruct (spop s2) as [s3 v1] eqn:E3. destruct (to_f64 _ _ v1); cnt_close.
+    - (* str1 *) destruct (speek s 0); try cnt_close. destruct (hget _ _) as [[]|]; cnt_close.
+    - (* mix3 *) destruct (to_i64 _ _ _); [|cnt_close]. destruct (to_f64 _ _ _); cnt_close.
     - (* call1 *)
-      destruct (spop s) as [s1 x] eqn:E1. destruct (spop s1) as [s2 f] eqn:E2.
-      destruct (spush s2 x) as [s3|] eqn:E3; [|cnt_close].
-      pose proof (Hrf f s3) as H. destruct (run_function _ _ _ f s3); cnt_close.
+      destruct (spush s _) as [s1|] eqn:E1; [|cnt_close].
+      pose proof (Hrf (speek s 1) s1) as H. destruct (run_function _ _ _ _ s1); cnt_close.
     - (* try1 *)
-      destruct (spop s) as [s1 x] eqn:E1. destruct (spop s1) as [s2 f] eqn:E2.
-      destruct (spush s2 x) as [s3|] eqn:E3; [|cnt_close].
-      pose proof (Hrf f s3) as H. destruct (run_function _ _ _ f s3); cnt_close.
+      destruct (spush s _) as [s1|] eqn:E1; [|cnt_close].
+      pose proof (Hrf (speek s 1) s1) as H. destruct (run_function _ _ _ _ s1); cnt_close.
     - (* call0 *)
-      destruct (spop s) as [s1 f] eqn:E1.
-      pose proof (Hrf f s1) as H. destruct (run_function _ _ _ f s1); cnt_close.
+      pose proof (Hrf (speek s 0) s) as H. destruct (run_function _ _ _ _ s); cnt_close.
     - cnt_close.
     - cnt_close.
     - cnt_close.
     - (* to_array *)
-      destruct (spop s) as [s1 v] eqn:E1. destruct v; try cnt_close.
+      destruct (speek s 0); try cnt_close.
       destruct (hget _ _) as [[]|]; try cnt_close.
-      destruct (salloc s1 _) as [s2 out] eqn:E2.
+      destruct (salloc s _) as [s2 out] eqn:E2.
       destruct (titer _ _); [|cnt_close].
       destruct (to_array_go _ _ _ _); cnt_close.
   Qed.
 
-  Lemma call_native_fuel_R fuel : forall h s, nres_R (st_count s) (call_native_fuel F P reenter fuel h s).
+  Lemma call_native_fuel_R fuel : forall h s, nres_R (cr s) (call_native_fuel F P reenter fuel h s).
   Proof.
     induction fuel as [|f IH]; intros h s; cbn [call_native_fuel]; [cnt_close|].
     destruct (find_native h all_natives) as [n|]; [|cnt_close].
     pose proof (@native_body_R _ IH n s) as H.
     destruct (native_body _ _ _ _ n s) as [v s1|e s1|ab s1]; cbn [nres_R] in H.
-    - destruct (spush s1 v) eqn:E; cnt_close.
+    - cbv zeta. destruct (spush _ v) eqn:E; cnt_close.
     - cnt_close.
     - cnt_close.
   Qed.
 
-  Lemma native_step_R h ip s : sres_R (st_count s) (native_step F P reenter h ip s).
+  Lemma native_step_R h ip s : sres_R (cr s) (native_step F P reenter h ip s).
   Proof.
     unfold native_step, call_native. pose proof (call_native_fuel_R 8 h s) as H.
     destruct (call_native_fuel _ _ _ _ h s); cnt_close.
   Qed.
 
-  Lemma native_step_R' h ip s c : R c (st_count s) -> sres_R c (native_step F P reenter h ip s).
+  Lemma native_step_R' h ip s c : R c (cr s) -> sres_R c (native_step F P reenter h ip s).
   Proof.
     intros Hc. pose proof (native_step_R h ip s) as H.
     destruct (native_step _ _ _ h ip s); cbn [sres_R] in *; eapply R_trans; eauto.
@@ -258,17 +256,17 @@ Section CountRel.
 
   Ltac instr d := intros opc ip0 ip s; unfold d; cbv zeta; step_tac.
 
-  Lemma i_4_R : forall opc ip0 ip s, sres_R (st_count s) (i_4 F P reenter opc ip0 ip s). Proof. instr i_4. Qed.
-  Lemma i_5_R : forall opc ip0 ip s, sres_R (st_count s) (i_5 P opc ip0 ip s). Proof. instr i_5. Qed.
-  Lemma i_6_R : forall opc ip0 ip s, sres_R (st_count s) (i_6 P opc ip0 ip s). Proof. instr i_6. Qed.
-  Lemma i_8_R : forall opc ip0 ip s, sres_R (st_count s) (i_8 P opc ip0 ip s). Proof. instr i_8. Qed.
-  Lemma i_11_R : forall opc ip0 ip s, sres_R (st_count s) (i_11 F P reenter opc ip0 ip s). Proof. instr i_11. Qed.
-  Lemma i_17_R : forall opc ip0 ip s, sres_R (st_count s) (i_17 P opc ip0 ip s). Proof. instr i_17. Qed.
-  Lemma i_18_R : forall opc ip0 ip s, sres_R (st_count s) (i_18 P opc ip0 ip s). Proof. instr i_18. Qed.
-  Lemma i_19_R : forall opc ip0 ip s, sres_R (st_count s) (i_19 P opc ip0 ip s). Proof. instr i_19. Qed.
-  Lemma i_20_R : forall opc ip0 ip s, sres_R (st_count s) (i_20 P opc ip0 ip s). Proof. instr i_20. Qed.
-  Lemma i_21_R : forall opc ip0 ip s, sres_R (st_count s) (i_21 opc ip0 ip s). Proof. instr i_21. Qed.
-  Lemma i_22_R : forall opc ip0 ip s, sres_R (st_count s) (i_22 opc ip0 ip s).
+  Lemma i_4_R : forall opc ip0 ip s, sres_R (cr s) (i_4 F P reenter opc ip0 ip s). Proof. instr i_4. Qed.
+  Lemma i_5_R : forall opc ip0 ip s, sres_R (cr s) (i_5 P opc ip0 ip s). Proof. instr i_5. Qed.
+  Lemma i_6_R : forall opc ip0 ip s, sres_R (cr s) (i_6 P opc ip0 ip s). Proof. instr i_6. Qed.
+  Lemma i_8_R : forall opc ip0 ip s, sres_R (cr s) (i_8 P opc ip0 ip s). Proof. instr i_8. Qed.
+  Lemma i_11_R : forall opc ip0 ip s, sres_R (cr s) (i_11 F P reenter opc ip0 ip s). Proof. instr i_11. Qed.
+  Lemma i_17_R : forall opc ip0 ip s, sres_R (cr s) (i_17 P opc ip0 ip s). Proof. instr i_17. Qed.
+  Lemma i_18_R : forall opc ip0 ip s, sres_R (cr s) (i_18 P opc ip0 ip s). Proof. instr i_18. Qed.
+  Lemma i_19_R : forall opc ip0 ip s, sres_R (cr s) (i_19 P opc ip0 ip s). Proof. instr i_19. Qed.
+  Lemma i_20_R : forall opc ip0 ip s, sres_R (cr s) (i_20 P opc ip0 ip s). Proof. instr i_20. Qed.
+  Lemma i_21_R : forall opc ip0 ip s, sres_R (cr s) (i_21 opc ip0 ip s). Proof. instr i_21. Qed.
+  Lemma i_22_R : forall opc ip0 ip s, sres_R (cr s) (i_22 opc ip0 ip s).
   Proof.
     intros opc ip0 ip s; unfold i_22; cbv zeta.
     destruct (st_calls s) as [|fr rest]; [cnt_close|].
@@ -276,22 +274,22 @@ Section CountRel.
     destruct (close_upvalues_from _ _) as [s2|e s2|a s2]; cbn [st_count set_calls] in Hcl; try cnt_close.
     step_tac.
   Qed.
-  Lemma i_23_R : forall opc ip0 ip s, sres_R (st_count s) (i_23 opc ip0 ip s). Proof. instr i_23. Qed.
-  Lemma i_27_R : forall opc ip0 ip s, sres_R (st_count s) (i_27 F opc ip0 ip s). Proof. instr i_27. Qed.
-  Lemma i_28_R : forall opc ip0 ip s, sres_R (st_count s) (i_28 bld P opc ip0 ip s). Proof. instr i_28. Qed.
-  Lemma i_29_30_R : forall opc ip0 ip s, sres_R (st_count s) (i_29_30 F bld P opc ip0 ip s). Proof. instr i_29_30. Qed.
-  Lemma i_31_R : forall opc ip0 ip s, sres_R (st_count s) (i_31 opc ip0 ip s). Proof. instr i_31. Qed.
-  Lemma i_32_R : forall opc ip0 ip s, sres_R (st_count s) (i_32 F opc ip0 ip s). Proof. instr i_32. Qed.
-  Lemma i_33_R : forall opc ip0 ip s, sres_R (st_count s) (i_33 F opc ip0 ip s). Proof. instr i_33. Qed.
-  Lemma i_34_R : forall opc ip0 ip s, sres_R (st_count s) (i_34 opc ip0 ip s). Proof. instr i_34. Qed.
-  Lemma i_35_R : forall opc ip0 ip s, sres_R (st_count s) (i_35 P opc ip0 ip s). Proof. instr i_35. Qed.
-  Lemma i_36_R : forall opc ip0 ip s, sres_R (st_count s) (i_36 F bld P opc ip0 ip s). Proof. instr i_36. Qed.
-  Lemma i_37_42_R : forall opc ip0 ip s, sres_R (st_count s) (i_37_42 P opc ip0 ip s). Proof. instr i_37_42. Qed.
-  Lemma i_38_R : forall opc ip0 ip s, sres_R (st_count s) (i_38 P opc ip0 ip s). Proof. instr i_38. Qed.
-  Lemma i_39_R : forall opc ip0 ip s, sres_R (st_count s) (i_39 F opc ip0 ip s). Proof. instr i_39. Qed.
-  Lemma i_40_R : forall opc ip0 ip s, sres_R (st_count s) (i_40 F opc ip0 ip s). Proof. instr i_40. Qed.
-  Lemma i_41_R : forall opc ip0 ip s, sres_R (st_count s) (i_41 F opc ip0 ip s). Proof. instr i_41. Qed.
-  Lemma i_43_44_R : forall opc ip0 ip s, sres_R (st_count s) (i_43_44 P opc ip0 ip s).
+  Lemma i_23_R : forall opc ip0 ip s, sres_R (cr s) (i_23 opc ip0 ip s). Proof. instr i_23. Qed.
+  Lemma i_27_R : forall opc ip0 ip s, sres_R (cr s) (i_27 F opc ip0 ip s). Proof. instr i_27. Qed.
+  Lemma i_28_R : forall opc ip0 ip s, sres_R (cr s) (i_28 bld P opc ip0 ip s). Proof. instr i_28. Qed.
+  Lemma i_29_30_R : forall opc ip0 ip s, sres_R (cr s) (i_29_30 F bld P opc ip0 ip s). Proof. instr i_29_30. Qed.
+  Lemma i_31_R : forall opc ip0 ip s, sres_R (cr s) (i_31 opc ip0 ip s). Proof. instr i_31. Qed.
+  Lemma i_32_R : forall opc ip0 ip s, sres_R (cr s) (i_32 F opc ip0 ip s). Proof. instr i_32. Qed.
+  Lemma i_33_R : forall opc ip0 ip s, sres_R (cr s) (i_33 F opc ip0 ip s). Proof. instr i_33. Qed.
+  Lemma i_34_R : forall opc ip0 ip s, sres_R (cr s) (i_34 opc ip0 ip s). Proof. instr i_34. Qed.
+  Lemma i_35_R : forall opc ip0 ip s, sres_R (cr s) (i_35 P opc ip0 ip s). Proof. instr i_35. Qed.
+  Lemma i_36_R : forall opc ip0 ip s, sres_R (cr s) (i_36 F bld P opc ip0 ip s). Proof. instr i_36. Qed.
+  Lemma i_37_42_R : forall opc ip0 ip s, sres_R (cr s) (i_37_42 P opc ip0 ip s). Proof. instr i_37_42. Qed.
+  Lemma i_38_R : forall opc ip0 ip s, sres_R (cr s) (i_38 P opc ip0 ip s). Proof. instr i_38. Qed.
+  Lemma i_39_R : forall opc ip0 ip s, sres_R (cr s) (i_39 F opc ip0 ip s). Proof. instr i_39. Qed.
+  Lemma i_40_R : forall opc ip0 ip s, sres_R (cr s) (i_40 F opc ip0 ip s). Proof. instr i_40. Qed.
+  Lemma i_41_R : forall opc ip0 ip s, sres_R (cr s) (i_41 F opc ip0 ip s). Proof. instr i_41. Qed.
+  Lemma i_43_44_R : forall opc ip0 ip s, sres_R (cr s) (i_43_44 P opc ip0 ip s).
   Proof.
     intros opc ip0 ip s; unfold i_43_44; cbv zeta.
     destruct (op_u32 P ip); [|cnt_close].
@@ -299,7 +297,7 @@ Section CountRel.
     - destruct (spop s) as [s1 wv] eqn:E. step_tac.
     - step_tac.
   Qed.
-  Lemma i_45_R : forall opc ip0 ip s, sres_R (st_count s) (i_45 P opc ip0 ip s).
+  Lemma i_45_R : forall opc ip0 ip s, sres_R (cr s) (i_45 P opc ip0 ip s).
   Proof.
     intros opc ip0 ip s; unfold i_45; cbv zeta.
     repeat match goal with
@@ -311,7 +309,7 @@ Section CountRel.
                 | |- context [match ?x with _ => _ end] => destruct x eqn:?
                 end; cnt_close.
   Qed.
-  Lemma i_46_R : forall opc ip0 ip s, sres_R (st_count s) (i_46 opc ip0 ip s).
+  Lemma i_46_R : forall opc ip0 ip s, sres_R (cr s) (i_46 opc ip0 ip s).
   Proof.
     intros opc ip0 ip s; unfold i_46.
     destruct (scount s =? 0); [cnt_close|].
@@ -319,7 +317,7 @@ Section CountRel.
     destruct (close_upvalues_from _ _); cnt_close.
   Qed.
 
-  Theorem step_count_rel : forall ip s, sres_R (st_count s) (step F bld P reenter ip s).
+  Theorem step_count_rel : forall ip s, sres_R (cr s) (step F bld P reenter ip s).
   Proof.
     intros ip0 s. unfold step. cbv zeta.
     destruct (nth (N.to_nat ip0) (p_code P) 255%N) as [|p]; [apply binary_op_R|].
@@ -338,7 +336,7 @@ Section CountRel.
 End CountRel.
 
 (* ------------------------------------------------------------------ *)
-(* The dispatch loop                                                   *)
+(* The dispatch loops                                                  *)
 (* ------------------------------------------------------------------ *)
 
 Definition res_state (r : rres) : state :=
@@ -347,143 +345,185 @@ Definition res_state (r : rres) : state :=
 Definition is_timeout (r : rres) : Prop :=
   match r with RErr ETimeout _ _ => True | _ => False end.
 
+(* (count, remaining) -> (count', remaining'): the work done is paid for by the budget, and the counter grows *)
+Definition paid (a b : N * N) : Prop := (fst b + snd b <= fst a + snd a /\ fst a <= fst b)%N.
+Lemma paid_refl x : paid x x.
+Proof. unfold paid; lia. Qed.
+Lemma paid_trans x y z : paid x y -> paid y z -> paid x z.
+Proof. unfold paid; lia. Qed.
+
+Lemma tick_cr s : cr (tick s) = ((st_count s + 1)%N, st_rem s).
+Proof. reflexivity. Qed.
+
 Section Loop.
   Variable F : fops.
   Variable bld : build.
   Variable P : program.
   Variable reenter : N -> state -> rres.
 
-  Lemma tick_count s : st_count (tick s) = (st_count s + 1)%N.
-  Proof. reflexivity. Qed.
-
-  (* with one unit of budget left nothing is executed and Timeout is reported at the current instruction *)
-  Theorem timeout_reported : forall ip s,
-    (ip < code_len P)%N -> loop F bld P reenter 1 ip s = RErr ETimeout ip s.
+  (* with at most one unit of budget left nothing is executed and Timeout is reported at the current instruction *)
+  Theorem timeout_reported : forall fuel ip s,
+    (ip < code_len P)%N -> (st_rem s <= 1)%N ->
+    loop F bld P reenter fuel ip s = RErr ETimeout ip (set_rem s 0).
   Proof.
-    intros ip s H. cbn [loop]. apply N.leb_gt in H. rewrite H. reflexivity.
+    intros fuel ip s H Hr. destruct fuel; cbn [loop]; apply N.leb_gt in H; rewrite H; cbn [st_rem set_rem].
+    all: replace (N.pred (st_rem s)) with 0%N by lia; reflexivity.
   Qed.
 
-  (* a larger budget does not change a run that did not time out *)
-  Lemma loop_mono : forall rem rem' ip s,
-    1 <= rem -> rem <= rem' -> ~ is_timeout (loop F bld P reenter rem ip s) ->
-    loop F bld P reenter rem' ip s = loop F bld P reenter rem ip s.
+  Section Paid.
+    Hypothesis re_paid : forall ip s, rres_R paid (cr s) (reenter ip s).
+
+    (* the real loop: dispatches are paid for by the shared budget *)
+    Lemma loop_paid : forall fuel ip s, rres_R paid (cr s) (loop F bld P reenter fuel ip s).
+    Proof.
+      induction fuel as [|f IH]; intros ip s; cbn [loop].
+      - destruct (code_len P <=? ip)%N; [cbn; unfold paid; cbn; lia|].
+        cbn [st_rem set_rem]. destruct (N.pred (st_rem s) =? 0)%N; cbn; unfold paid; cbn; lia.
+      - destruct (code_len P <=? ip)%N; [cbn; unfold paid; cbn; lia|].
+        cbn [st_rem set_rem]. destruct (N.pred (st_rem s) =? 0)%N eqn:E0; [cbn; unfold paid; cbn; lia|].
+        apply N.eqb_neq in E0.
+        pose proof (@step_count_rel paid paid_refl paid_trans F bld P reenter re_paid ip
+                      (tick (set_rem s (N.pred (st_rem s))))) as Hs.
+        rewrite tick_cr in Hs. cbn [st_count st_rem set_rem] in Hs.
+        destruct (step F bld P reenter ip _) as [ip' s'|s'|e ip' s'|a s']; cbn [sres_R rres_R] in *;
+          try (unfold paid, cr in *; cbn [fst snd] in *; lia).
+        specialize (IH ip' s').
+        destruct (loop F bld P reenter f ip' s'); cbn [rres_R] in *; unfold paid, cr in *; cbn [fst snd] in *; lia.
+    Qed.
+  End Paid.
+
+  (* the flat loop *)
+  Lemma loop_flat_mono : forall rem rem' ip s,
+    rem <= rem' -> ~ is_timeout (loop_flat F bld P reenter rem ip s) ->
+    loop_flat F bld P reenter rem' ip s = loop_flat F bld P reenter rem ip s.
   Proof.
-    induction rem as [|r IH]; intros rem' ip s H1 Hle Hnt; [lia|].
-    destruct rem' as [|r']; [lia|].
-    cbn [loop] in *.
-    destruct (code_len P <=? ip)%N; [reflexivity|].
-    destruct r as [|r0]; [exfalso; apply Hnt; exact I|].
-    destruct r' as [|r0']; [lia|].
-    destruct (step F bld P reenter ip (tick s)) as [ip' s'|s'|e ip' s'|a s']; try reflexivity.
-    apply IH; [lia|lia|exact Hnt].
+    induction rem as [|r IH]; intros rem' ip s Hle Hnt.
+    - cbn [loop_flat] in *. destruct rem'; cbn [loop_flat]; destruct (code_len P <=? ip)%N;
+        try reflexivity; exfalso; apply Hnt; exact I.
+    - destruct rem' as [|r']; [lia|].
+      cbn [loop_flat] in *.
+      destruct (code_len P <=? ip)%N; [reflexivity|].
+      destruct r as [|r0]; [exfalso; apply Hnt; exact I|].
+      destruct r' as [|r0']; [lia|].
+      destruct (step F bld P reenter ip (tick s)) as [ip' s'|s'|e ip' s'|a s']; try reflexivity.
+      apply IH; [lia|exact Hnt].
   Qed.
 
   Section Flat.
-    (* natives that do not run instructions: the ghost counter is left alone by re-entry *)
-    Hypothesis re_eq : forall ip s, rres_R eq (st_count s) (reenter ip s).
+    Hypothesis re_eq : forall ip s, rres_R eq (cr s) (reenter ip s).
 
-    Lemma step_count_eq ip s :
+    Lemma step_cr_eq ip s :
       match step F bld P reenter ip s with
-      | SNext _ s' | SExit s' | SErr _ _ s' | SStop _ s' => st_count s' = st_count s
+      | SNext _ s' | SExit s' | SErr _ _ s' | SStop _ s' => cr s' = cr s
       end.
     Proof.
-      pose proof (@step_count_rel eq (@eq_refl N) (@eq_trans N) F bld P reenter re_eq ip s) as H.
+      pose proof (@step_count_rel eq (@eq_refl _) (@eq_trans _) F bld P reenter re_eq ip s) as H.
       destruct (step F bld P reenter ip s); cbn [sres_R] in H; congruence.
     Qed.
 
-    Lemma loop_bound : forall rem ip s,
-      (st_count s <= st_count (res_state (loop F bld P reenter rem ip s)) /\
-       st_count (res_state (loop F bld P reenter rem ip s)) <= st_count s + N.of_nat (Nat.pred rem))%N.
+    Lemma loop_flat_bound : forall rem ip s,
+      (st_count s <= st_count (res_state (loop_flat F bld P reenter rem ip s)) /\
+       st_count (res_state (loop_flat F bld P reenter rem ip s)) <= st_count s + N.of_nat (Nat.pred rem))%N.
     Proof.
-      induction rem as [|r IH]; intros ip s; cbn [loop].
+      induction rem as [|r IH]; intros ip s; cbn [loop_flat].
       - destruct (code_len P <=? ip)%N; cbn [res_state]; lia.
       - destruct (code_len P <=? ip)%N; [cbn [res_state]; lia|].
         destruct r as [|r0]; [cbn [res_state]; lia|].
-        pose proof (step_count_eq ip (tick s)) as Hs. rewrite tick_count in Hs.
-        destruct (step F bld P reenter ip (tick s)) as [ip' s'|s'|e ip' s'|a s']; cbn [res_state]; try lia.
+        pose proof (step_cr_eq ip (tick s)) as Hs. rewrite tick_cr in Hs.
+        destruct (step F bld P reenter ip (tick s)) as [ip' s'|s'|e ip' s'|a s']; cbn [res_state];
+          unfold cr in Hs; inversion Hs; try lia.
         specialize (IH ip' s'). cbn [Nat.pred] in *. lia.
     Qed.
   End Flat.
-
-  Section Mono.
-    Hypothesis re_le : forall ip s, rres_R N.le (st_count s) (reenter ip s).
-
-    Lemma loop_count_le : forall rem ip s, rres_R N.le (st_count s) (loop F bld P reenter rem ip s).
-    Proof.
-      induction rem as [|r IH]; intros ip s; cbn [loop].
-      - destruct (code_len P <=? ip)%N; cbn [rres_R]; lia.
-      - destruct (code_len P <=? ip)%N; [cbn [rres_R]; lia|].
-        destruct r as [|r0]; [cbn [rres_R]; lia|].
-        pose proof (@step_count_rel N.le N.le_refl N.le_trans F bld P reenter re_le ip (tick s)) as Hs.
-        rewrite tick_count in Hs.
-        destruct (step F bld P reenter ip (tick s)) as [ip' s'|s'|e ip' s'|a s']; cbn [sres_R rres_R] in *; try lia.
-        specialize (IH ip' s').
-        destruct (loop F bld P reenter (S r0) ip' s'); cbn [rres_R] in *; lia.
-    Qed.
-  End Mono.
 End Loop.
 
-Lemma no_reenter_eq : forall ip s, rres_R eq (st_count s) (no_reenter ip s).
+Lemma no_reenter_eq : forall ip s, rres_R eq (cr s) (no_reenter ip s).
 Proof. intros; reflexivity. Qed.
+
+(* ------------------------------------------------------------------ *)
+(* C03 for the code as it is: the budget bounds every run, re-entry included *)
+(* ------------------------------------------------------------------ *)
+
+Lemma run_at_paid F bld P max_instr : forall depth ip s,
+  rres_R paid (cr s) (run_at F bld P false max_instr depth ip s).
+Proof.
+  induction depth as [|d IH]; intros ip s; cbn [run_at]; [cbn; unfold paid; cbn; lia|].
+  unfold run_loop. apply loop_paid. exact IH.
+Qed.
+
+Lemma finish_state P r : st_count (snd (finish P r)) = st_count (res_state r) /\
+                         st_rem (snd (finish P r)) = st_rem (res_state r).
+Proof.
+  unfold finish. destruct r as [s|e ip s|a s]; cbn; split; reflexivity.
+Qed.
+
+Lemma push_frame_cr s f s1 : push_frame s f = Some s1 -> cr s1 = cr s.
+Proof. unfold push_frame. destruct (_ <=? _); intros H; inversion H; reflexivity. Qed.
+
+(* for all programs, all states, every nesting of run_function through the natives of the menu:
+   a run with budget N dispatches at most N instructions (and the counter never decreases) *)
+Theorem budget_bound : forall F bld P N s,
+  (st_count s <= st_count (snd (run F bld N P s)) /\
+   st_count (snd (run F bld N P s)) <= st_count s + N.of_nat N)%N.
+Proof.
+  intros F bld P N s. unfold run, run_gen.
+  destruct (push_frame s _) as [s1|] eqn:Ep; [|cbn; lia].
+  apply push_frame_cr in Ep. unfold cr in Ep. inversion Ep as [[Hc Hr]].
+  pose proof (run_at_paid F bld P (N.of_nat N) max_depth 0%N (set_rem s1 (N.of_nat N))) as H.
+  destruct (finish_state P (run_at F bld P false (N.of_nat N) max_depth 0 (set_rem s1 (N.of_nat N)))) as [Hf _].
+  rewrite Hf.
+  destruct (run_at F bld P false (N.of_nat N) max_depth 0 (set_rem s1 (N.of_nat N)));
+    cbn [rres_R res_state] in *; unfold paid, cr in H; cbn [fst snd st_count st_rem set_rem] in H; lia.
+Qed.
 
 (* ------------------------------------------------------------------ *)
 (* Runs without re-entry                                               *)
 (* ------------------------------------------------------------------ *)
 
-(* C03, single level: a run started with budget N >= 1 dispatches at most N - 1 (< N) instructions *)
-Theorem budget_bound : forall F bld P N s o s',
-  1 <= N -> run_flat F bld N P s = (o, s') ->
-  (st_count s <= st_count s' /\ st_count s' <= st_count s + N.of_nat (N - 1))%N.
+Theorem budget_bound_flat : forall F bld P N s o s',
+  run_flat F bld N P s = (o, s') ->
+  (st_count s <= st_count s' /\ st_count s' <= st_count s + N.of_nat (Nat.pred N))%N.
 Proof.
-  intros F bld P N s o s' HN Hrun. unfold run_flat in Hrun.
+  intros F bld P N s o s' Hrun. unfold run_flat in Hrun.
   destruct (push_frame s _) as [s1|] eqn:Ep.
-  - assert (Hc : st_count s1 = st_count s).
-    { unfold push_frame in Ep. destruct (_ <=? _); inversion Ep; reflexivity. }
-    destruct N as [|n]; [lia|]. unfold run_loop in Hrun.
-    pose proof (@loop_bound F bld P no_reenter no_reenter_eq (S n) 0%N s1) as Hb.
-    destruct (loop F bld P no_reenter (S n) 0 s1); cbn [outcome_of res_state] in *;
-      inversion Hrun; subst; replace (S n - 1) with (Nat.pred (S n)) by (cbn; lia); lia.
+  - apply push_frame_cr in Ep. unfold cr in Ep. inversion Ep as [[Hc Hr]].
+    pose proof (@loop_flat_bound F bld P no_reenter no_reenter_eq N 0%N s1) as Hb.
+    destruct (finish_state P (loop_flat F bld P no_reenter N 0 s1)) as [Hf _].
+    rewrite Hrun in Hf. cbn [snd] in Hf. lia.
   - inversion Hrun; subst. lia.
 Qed.
-
-Corollary budget_bound_le : forall F bld P N s o s',
-  1 <= N -> run_flat F bld N P s = (o, s') -> (st_count s' - st_count s <= N.of_nat N)%N.
-Proof. intros. pose proof (budget_bound F bld P s H H0). lia. Qed.
 
 Definition is_timeout_outcome (o : outcome) : Prop :=
   match o with OErr ETimeout _ => True | _ => False end.
 
-Lemma outcome_timeout P r : is_timeout_outcome (fst (outcome_of P r)) <-> is_timeout r.
-Proof. destruct r as [s|e ip s|a s]; cbn; tauto. Qed.
+Lemma finish_timeout P r : is_timeout_outcome (fst (finish P r)) <-> is_timeout r.
+Proof. unfold finish. destruct r as [s|e ip s|a s]; cbn; tauto. Qed.
 
-(* a sufficient budget does not influence the result *)
+(* a sufficient budget does not influence the result: outcome and final state are equal *)
 Theorem budget_monotone : forall F bld P N N' s o s',
-  1 <= N -> N <= N' -> run_flat F bld N P s = (o, s') -> ~ is_timeout_outcome o ->
+  N <= N' -> run_flat F bld N P s = (o, s') -> ~ is_timeout_outcome o ->
   run_flat F bld N' P s = (o, s').
 Proof.
-  intros F bld P N N' s o s' HN Hle Hrun Hnt. unfold run_flat in *.
+  intros F bld P N N' s o s' Hle Hrun Hnt. unfold run_flat in *.
   destruct (push_frame s _) as [s1|]; [|exact Hrun].
-  destruct N as [|n]; [lia|]. destruct N' as [|n']; [lia|]. unfold run_loop in *.
-  rewrite (@loop_mono F bld P no_reenter (S n) (S n') 0%N s1); [exact Hrun|lia|lia|].
-  intros Ht. apply Hnt. apply (outcome_timeout P) in Ht. rewrite Hrun in Ht. exact Ht.
+  rewrite (@loop_flat_mono F bld P no_reenter N N' 0%N s1); [exact Hrun|lia|].
+  intros Ht. apply Hnt. apply (finish_timeout P) in Ht. rewrite Hrun in Ht. exact Ht.
 Qed.
 
-(* the result is the same for every two sufficient budgets *)
 Corollary sufficient_budgets_agree : forall F bld P N1 N2 s r1 r2,
-  1 <= N1 -> 1 <= N2 ->
   run_flat F bld N1 P s = r1 -> run_flat F bld N2 P s = r2 ->
   ~ is_timeout_outcome (fst r1) -> ~ is_timeout_outcome (fst r2) -> r1 = r2.
 Proof.
-  intros F bld P N1 N2 s [o1 s1] [o2 s2] H1 H2 E1 E2 T1 T2. cbn [fst] in *.
+  intros F bld P N1 N2 s [o1 s1] [o2 s2] E1 E2 T1 T2. cbn [fst] in *.
   destruct (Nat.le_ge_cases N1 N2) as [L|L].
-  - rewrite (budget_monotone F bld P s H1 L E1 T1) in E2. congruence.
-  - rewrite (budget_monotone F bld P s H2 L E2 T2) in E1. congruence.
+  - rewrite (budget_monotone F bld P s L E1 T1) in E2. congruence.
+  - rewrite (budget_monotone F bld P s L E2 T2) in E1. congruence.
 Qed.
 
 Lemma is_timeout_outcome_dec o : {is_timeout_outcome o} + {~ is_timeout_outcome o}.
 Proof. destruct o as [|e t|a]; cbn; try (right; tauto). destruct e; cbn; (left; exact I) || (right; tauto). Qed.
 
-(* a program that needs at least N instructions reports Timeout when run with budget N *)
+(* a program that needs at least N instructions reports Timeout when run with budget N >= 1 *)
 Theorem timeout_reported_run : forall F bld P N N' s o' s'',
   1 <= N -> N <= N' -> run_flat F bld N' P s = (o', s'') ->
   (st_count s + N.of_nat N <= st_count s'')%N ->
@@ -492,67 +532,31 @@ Proof.
   intros F bld P N N' s o' s'' HN Hle Hrun Hcnt.
   destruct (run_flat F bld N P s) as [o s'] eqn:E. cbn [fst].
   destruct (is_timeout_outcome_dec o) as [T|T]; [exact T|exfalso].
-  pose proof (budget_monotone F bld P s HN Hle E T) as E'. rewrite E' in Hrun. inversion Hrun; subst.
-  pose proof (budget_bound F bld P s HN E). lia.
+  pose proof (budget_monotone F bld P s Hle E T) as E'. rewrite E' in Hrun. inversion Hrun; subst.
+  pose proof (budget_bound_flat F bld P N s E). lia.
 Qed.
 
 (* ------------------------------------------------------------------ *)
-(* All nesting depths: the counter never decreases                     *)
+(* The budget rule of the pinned tree (A-11) did not bound the work    *)
 (* ------------------------------------------------------------------ *)
 
-Lemma run_loop_count_le F bld P reenter :
-  (forall ip s, rres_R N.le (st_count s) (reenter ip s)) ->
-  forall budget ip s, rres_R N.le (st_count s) (run_loop F bld P reenter budget ip s).
-Proof.
-  intros Hre budget ip s. unfold run_loop.
-  destruct budget as [|n]; [|apply loop_count_le; exact Hre].
-  destruct (code_len P <=? ip)%N; [cbn; lia|].
-  destruct bld; [cbn; lia|].
-  pose proof (@loop_count_le F Release P reenter Hre wrapped_fuel ip s) as H.
-  destruct (loop F Release P reenter wrapped_fuel ip s) as [s'|e ip' s'|a s']; cbn [rres_R] in *; try exact H.
-  destruct e; cbn [rres_R]; exact H.
-Qed.
-
-Lemma run_at_count_le F bld P budget : forall depth ip s,
-  rres_R N.le (st_count s) (run_at F bld P budget depth ip s).
-Proof.
-  induction depth as [|d IH]; intros ip s; cbn [run_at]; [cbn; lia|].
-  apply run_loop_count_le. exact IH.
-Qed.
-
-Theorem count_monotone : forall F bld N P s, (st_count s <= st_count (snd (run F bld N P s)))%N.
-Proof.
-  intros. unfold run, run_depth.
-  destruct (push_frame s _) as [s1|] eqn:Ep; [|cbn; lia].
-  assert (Hc : st_count s1 = st_count s).
-  { unfold push_frame in Ep. destruct (_ <=? _); inversion Ep; reflexivity. }
-  pose proof (run_at_count_le F bld P N max_depth 0%N s1) as H.
-  destruct (run_at F bld P N max_depth 0 s1); cbn [outcome_of snd rres_R] in *; lia.
-Qed.
-
-(* ------------------------------------------------------------------ *)
-(* With re-entry the bound is false (A-11)                             *)
-(* ------------------------------------------------------------------ *)
-
-
-(* `Vm::run_function` starts the nested `_run` with a fresh copy of max_instr. The compiled program
-   VmWitness.nested_budget_program calls a 12-iteration loop three times through the re-entrant native
-   `call1`; with budget 150 it completes (the real VM does too) after dispatching 369 instructions. *)
-Theorem budget_bound_nested_refuted :
+(* VmWitness.nested_budget_program calls a 12-iteration loop three times through the re-entrant native `call1`.
+   With a fresh budget for every nested `_run` and budget 150 it completed after 369 dispatched instructions
+   (observed on the crate before 9ecef93); under the shared budget the same run reports Timeout. *)
+Theorem budget_bound_legacy_refuted :
   forall F bld,
   exists P N, 1 <= N /\
-    fst (run F bld N P fresh_state) = OOk /\
-    (N.of_nat N < st_count (snd (run F bld N P fresh_state)) - st_count fresh_state)%N.
+    fst (run_legacy F bld N P fresh_state) = OOk /\
+    (N.of_nat N < st_count (snd (run_legacy F bld N P fresh_state)) - st_count fresh_state)%N.
 Proof.
   intros F bld. exists nested_budget_program, 150. split; [lia|].
   destruct bld; vm_compute; split; reflexivity.
 Qed.
 
-(* hence no bound of the form "dispatched <= budget" holds for `run` over all programs *)
-Corollary budget_bound_fails_for_run :
-  forall F bld,
-  ~ (forall P N s, 1 <= N -> (st_count (snd (run F bld N P s)) - st_count s <= N.of_nat N)%N).
-Proof.
-  intros F bld H. destruct (budget_bound_nested_refuted F bld) as (P & N & HN & _ & Hlt).
-  specialize (H P N fresh_state HN). lia.
-Qed.
+(* under the shared budget the same run is cut off inside the third callback: the nested Timeout comes back
+   through the native as TaskFailure{call1, Timeout} *)
+Theorem witness_is_cut_off_now :
+  forall F bld, exists t,
+    fst (run F bld 150 nested_budget_program fresh_state) = OErr (ETaskFailure name_call1 ETimeout) t /\
+    (st_count (snd (run F bld 150 nested_budget_program fresh_state)) <= 150)%N.
+Proof. intros F bld. destruct bld; vm_compute; eexists; (split; [reflexivity|discriminate]). Qed.
